@@ -135,7 +135,7 @@ static void * bystander(void * a) {
 static void run(int tier, int prog) {
   build(); cur = &P[tier][prog];
   mv_start(cur->W);
-  myth_mutex_init(&mtx, 0);
+  h_mutex_init(&mtx, prog & 1);
   myth_thread_t th[3], by = 0;
   if (cur->bystander) by = myth_create(bystander, 0);
   for (int i = 0; i < cur->nth; i++) th[i] = myth_create(contender, (void *)(long)i);
